@@ -1000,6 +1000,8 @@ async fn build_authoritative_response(
         });
 
         if is_referral {
+            // a referral is not an authoritative answer, RFC 1034 section 4.3.2 step 3b
+            message.metadata.authoritative = false;
             message.authorities.extend(lookup_records.iter().cloned());
         } else {
             message.answers.extend(lookup_records.iter().cloned());
